@@ -338,6 +338,55 @@ theorem wordR_composed (j : List (Dy × Nat)) (w : List (Nat × Dy)) :
     intro a _
     simp [Function.comp, dyR_mul]
 
+theorem dyR_add (a b : Dy) : dyR (Dy.add a b) = dyR a + dyR b := by
+  unfold Dy.add dyR
+  split
+  · rename_i h
+    obtain ⟨k, hk⟩ := Nat.exists_eq_add_of_le h
+    simp only [hk, Nat.add_sub_cancel_left, Int.cast_add, Int.cast_mul, Int.cast_pow, Int.cast_ofNat, pow_add]
+    field_simp
+  · rename_i h
+    obtain ⟨k, hk⟩ := Nat.exists_eq_add_of_le (Nat.le_of_not_le h)
+    simp only [hk, Nat.add_sub_cancel_left, Int.cast_add, Int.cast_mul, Int.cast_pow, Int.cast_ofNat, pow_add]
+    field_simp
+
+theorem dyR_neg (a : Dy) : dyR (Dy.neg a) = - dyR a := by
+  simp [dyR, Dy.neg, neg_div]
+
+theorem dyR_eqv (a b : Dy) (h : Dy.eqv a b = true) : dyR a = dyR b := by
+  have z : dyR (Dy.sub a b) = 0 := by
+    unfold Dy.eqv at h
+    have : (Dy.sub a b).m = 0 := by simpa using h
+    simp [dyR, this]
+  rw [Dy.sub, dyR_add, dyR_neg] at z
+  linarith
+
+theorem wordR_eqv : ∀ (u v : List (Nat × Dy)), wordEqv u v = true → wordR u = wordR v
+  | [], [] , _ => rfl
+  | a :: as, b :: bs, h => by
+    simp only [wordEqv, Bool.and_eq_true, beq_iff_eq] at h
+    have ih := wordR_eqv as bs h.2
+    simp only [wordR, List.map_cons] at ih ⊢
+    rw [ih, h.1.1, dyR_eqv _ _ h.1.2]
+  | [], _ :: _, h => by simp [wordEqv] at h
+  | _ :: _, [], h => by simp [wordEqv] at h
+
+/-- the traced words of orders 4, 6, 8 ARE the tower over the traced base word with the traced jumps -/
+theorem traced_words_are_tower :
+    wordR word4 = tower (wordR word2) [jump4.map fun p => dyR p.1] ∧
+    wordR word6 = tower (wordR word2) [jump6.map fun p => dyR p.1, jump4.map fun p => dyR p.1] ∧
+    wordR word8 = tower (wordR word2) [jump8.map fun p => dyR p.1, jump6.map fun p => dyR p.1, jump4.map fun p => dyR p.1] := by
+  have h := words_are_composed
+  simp only [Bool.and_eq_true] at h
+  have e4 := wordR_eqv _ _ h.1.1
+  have e6 := wordR_eqv _ _ h.1.2
+  have e8 := wordR_eqv _ _ h.2
+  rw [wordR_composed] at e4 e6 e8
+  refine ⟨?_, ?_, ?_⟩
+  · simpa [tower] using e4
+  · rw [e6, e4]; rfl
+  · rw [e8, e6, e4]; rfl
+
 /-- non-vacuity: a two-level tower with the triple jump, reversible and consistent -/
 example (g₁ g₂ : ℝ) :
     letterSum 2 (tower [(0, 1/2), (1, 1/2), (2, 1), (1, 1/2), (0, 1/2)] [[g₁, 1 - 2 * g₁, g₁], [g₂, 1 - 2 * g₂, g₂]]) = 1 := by
